@@ -11,6 +11,14 @@ def one(sid):
     tmp = tempfile.mkdtemp(prefix="seeded-")
     try:
         shutil.copytree("/repo/src", os.path.join(tmp, "src"))
+        try:
+            base = json.load(open(os.path.join(d, "meta.json"))).get("base")
+        except Exception:
+            base = None
+        if base:
+            r = subprocess.run(["patch", "-p1", "-s", "--no-backup-if-mismatch", "-i", os.path.join(HERE, base)], cwd=tmp, capture_output=True, text=True)
+            if r.returncode != 0:
+                return sid, {"error": "base refactoring does not apply"}
         r = subprocess.run(["patch", "-p1", "--no-backup-if-mismatch", "-i", os.path.join(d, "patch.diff")], cwd=tmp, capture_output=True, text=True)
         if r.returncode != 0:
             return sid, {"error": "patch does not apply: " + r.stdout[-200:]}
